@@ -621,6 +621,8 @@ def f_duplicate(d, rng):
 def _one_long_regular_file(d):
     """all frames in one file of at least six regularly spaced frames, times stated in seconds"""
     frames = sorted(t for f in d["files"] for t in f)
+    if len(frames) < 2 or frames[1] == frames[0]:  # an earlier injection left nothing regular to extend
+        return None
     sp = frames[1] - frames[0]
     while len(frames) < 6:
         frames.append(frames[-1] + sp)
@@ -632,6 +634,8 @@ def _one_long_regular_file(d):
 def f_swap_interior(d, rng):
     """two frames swapped deep inside a long regular file: first, second and last time stamps are untouched"""
     fr = _one_long_regular_file(d)
+    if fr is None:
+        return False
     i = rng.randrange(2, len(fr) - 2)
     fr[i], fr[i + 1] = fr[i + 1], fr[i]
     if i + 1 == len(fr) - 1:
@@ -641,6 +645,8 @@ def f_swap_interior(d, rng):
 def f_dup_interior(d, rng):
     """a frame repeated in place of its successor deep inside a long regular file"""
     fr = _one_long_regular_file(d)
+    if fr is None:
+        return False
     i = rng.randrange(2, len(fr) - 2)
     fr[i + 1] = fr[i]
     if i + 1 == len(fr) - 1:
